@@ -195,6 +195,31 @@ end
 /-- the semantic certificate modulo bare immediate statements in front of an assignment to the same immediate -/
 def certifiedSemB (prog : List CStmt) : Bool := certifiedSem (dropBare prog)
 
+/-- contains a bare value statement `e;` somewhere (top level, `if`/`else` arms, loop bodies) -/
+def hasBare : List CStmt → Bool
+  | [] => false
+  | .exprstmt _ :: _ => true
+  | .ite _ t none :: ss => hasBare t || hasBare ss
+  | .ite _ t (some e) :: ss => hasBare t || hasBare e || hasBare ss
+  | .for_ _ _ _ b :: ss => hasBare b || hasBare ss
+  | _ :: ss => hasBare ss
+
+/-- The semantic certificate for behaviours with bare PURE value statements (`siV; EA = RsV + siV; …`, the "touch the
+    operand" statements most shipped behaviours start with): the conjuncts of `certifiedSem`, whose ingredients accept
+    such a statement anywhere (top level, arms, loop bodies) under these conditions —
+    `HybFreeS (.exprstmt e) = HybFree e` (no side effect inside the value), `WFStmt c (.exprstmt e) = true` with `e`
+    among `exprsOf` (so `WFES c e`: the value is statically well-formed), `CarveSSem env (.exprstmt e) =
+    CarveESem env.assigned e` (both lowerings compile the value alike), `HSameS env (.exprstmt e) = HSame env e`.
+    The value may still be undefined in C for some state (an out-of-range shift): then the C behaviour is undefined
+    there, which the hypothesis `ExecCs … σC'` of `Sem.certifiedSemP_correct` excludes — nothing is ignored.
+    (`certifiedSem` is the same function: it was false for every behaviour with an expression statement before.) -/
+def certifiedSemP (prog : List CStmt) : Bool :=
+  let c := ctxOf prog
+  c.ok && WFStmts c prog && (exprsOfList prog).all (WFES c) &&
+  CarveProgSem prog && HybFreeSs prog && HSameProg Cfg.asCode prog
+
+theorem certifiedSemP_eq (prog : List CStmt) : certifiedSemP prog = certifiedSem prog := rfl
+
 /-- which conjuncts of `certifiedSem` hold (diagnostics for the evidence): ctx ok, WFStmts, WFES, CarveProgSem, HybFreeSs, HSameProg -/
 def certifiedSemDetail (prog : List CStmt) : String :=
   let c := ctxOf prog
